@@ -77,7 +77,7 @@ CLAIMED = {
         "linear interpolation map them to the SAME body (…_ni); focus to related bodies and the same header dimensions (focus_ni); the two-point and the distribution normaliser compute the same statistics and related results "
         "(Props/C09Norm: normalize_ni, normalizeDistribution_ni); hence for EVERY program over these eleven operations the two runs fail together or end with the same visible "
         "result (run_ni, runN_ni, program_noninterference); the feature representations — distance, X/Y angle, inner angle, point-line distance, the points block and the whole assembled representation — return the same values for any "
-        "two fillings of the missing points (Props/C09Repr: rep2_ni, rep3_ni, pointsRepRows_ni, forward_ni). Partial: the 3-D normaliser, the spline interpolants, augmentation and serialisation are not in the Lean model — they are decided on the implementation by the "
+        "two fillings of the missing points (Props/C09Repr: rep2_ni, rep3_ni, pointsRepRows_ni, forward_ni). augmentation is the matrix product with a matrix that depends on the random draws only, so matmul_ni (any matrix) covers it; write → read gives the same visible result for two bodies that differ under the mask only (Props/C09Ser: serialise_ni). Partial: the 3-D normaliser (known finding K4) and the spline interpolants are not in the Lean model — they are decided on the implementation by the "
         "two-run check (two fillings of the missing slots incl. NaN / ±inf / ±3e38, same operation sequence, visible results compared exactly after every step, NumPy / torch / tensorflow). Known finding K4 (3-D normaliser).",
    technique="Lean 4 proof (relational two-run invariant over nested arrays, induction over programs) + differential two-run execution on three backends and model correspondence",
    design="§5 C09"),
